@@ -417,7 +417,7 @@ func inspect(c *ev.Ctx, t *txCase, tx transaction.Transaction, stage string, wit
 		switch {
 		case t.class == 2:
 			bad("id.changes-across-representations."+stageKind, "id "+hex.EncodeToString(id))
-		case leadingEmptyInList(t.tx.Get("data")):
+		case bytes.Equal(id, quirkTxID(t.tx)):
 			bad("id.differs-from-reference.list-leading-empty-string", "id "+hex.EncodeToString(id))
 		default:
 			bad("id.differs-from-reference."+stageKind+"."+classKey(t), "id "+hex.EncodeToString(id))
@@ -557,7 +557,7 @@ func change(c *ev.Ctx, r *rand.Rand, t *txCase, other *sig.Key) {
 	if !bytes.Equal(idB, sig.Sha3([]byte(phB))) {
 		w := wit("id of the changed transaction differs from the reference")
 		w["phrase_b"] = phB
-		if leadingEmptyInList(m.Get("data")) {
+		if bytes.Equal(idB, quirkTxID(m)) {
 			c.Violation("id.differs-from-reference.list-leading-empty-string", w)
 		} else {
 			c.Violation("id.differs-from-reference.changed."+short, w)
@@ -576,7 +576,7 @@ func change(c *ev.Ctx, r *rand.Rand, t *txCase, other *sig.Key) {
 	if bytes.Equal(idB, t.refID) {
 		w := wit("a changed signed field left the id unchanged")
 		w["phrase_b"] = phB
-		if leadingEmptyInList(m.Get("data")) || leadingEmptyInList(t.tx.Get("data")) {
+		if bytes.Equal(quirkTxID(m), quirkTxID(t.tx)) {
 			c.Violation("change.keeps-id.list-leading-empty-string", w)
 		} else {
 			c.Violation("change.keeps-id."+short, w)
